@@ -1,5 +1,7 @@
 """C09 — the cluster update is weight-preserving and reversible."""
-LEAN_TARGETS = ["QmcProps.C09", "drv_c09"]
+from checks import pure_fns
+from checks import extra_audits
+LEAN_TARGETS = ["QmcProofs.RefinementClusterExact", "QmcProps.C09", "drv_c09"]
 BINS = ["c09"]
 
 THEOREMS = [
@@ -59,6 +61,8 @@ RULE = ("synthetic valid strings (1..6 spins quick / 1..9 thorough; per world li
 
 
 def main(ck):
+    extra_audits.run(ck)
+    pure_fns.run(ck)   # source->Lean translation of pure functions, re-proved equal to the hand model
     if ck.lake_build(LEAN_TARGETS):
         ck.audit("QmcProps.C09", ["Qmc.C09." + t for t in THEOREMS])
     if ck.cargo_build(BINS):
